@@ -306,7 +306,7 @@ def gen_overrides(rng, spec: ClassSpec, for_unstructure=False, allow_unsafe=Fals
             if r < 0.25:
                 o["omit"] = rng.choice([True, False]) if (f.default is not None or not f.init or for_unstructure) else False
             if rng.random() < 0.5:
-                key = rng.choice([f"r{f.name}", f"ren_{len(used)}", f.name] + (UNSAFE_KEYS if allow_unsafe and rng.random() < 0.15 else []))
+                key = rng.choice([f"r{f.name}", f"ren_{len(used)}", f.name] + (UNSAFE_KEYS * 3 if allow_unsafe else []))
                 if key not in used:
                     o["rename"] = key
                     used.add(key)
